@@ -475,7 +475,18 @@ func (g *Gen) HistoryAlgebra() []E {
 	not := func(x []interface{}) []interface{} { return []interface{}{"not", x} }
 	for len(evs) < g.P.Ops {
 		a, b := g.crit(2), g.crit(2)
-		switch g.r.Intn(6) {
+		switch g.r.Intn(7) {
+		case 6: // presence: Exists also when nil, NotExists its negation, alone, negated twice and next to a bound
+			f := g.leafField()
+			none := []interface{}{"none"}
+			ex := []interface{}{"un", "exists", B(f), none}
+			find(ex)
+			find(not(not(ex)))
+			find([]interface{}{"sugar", "notexists", B(f), none})
+			find([]interface{}{"and", ex, []interface{}{"sugar", "isnil", B(f), none}})
+			find([]interface{}{"and", []interface{}{"sugar", "notexists", B(f), none}, []interface{}{"un", "lt", B(f), g.operand(f)}})
+			find([]interface{}{"and", []interface{}{"un", "gte", B(f), []interface{}{"lit", ANil()}}, ex})
+			find([]interface{}{"sugar", "isnilornotexists", B(f), none})
 		case 0:
 			find(not([]interface{}{"and", a, b}))
 			find([]interface{}{"or", not(a), not(b)})
